@@ -17,6 +17,101 @@ theorem pin_readCount : 1 ≤ Gen.C03.readCount := by decide
 /-- the only ESC… literal in `Vt100Parser.feed` is the paste end mark of the model -/
 theorem pin_endMark : Gen.C03.feedMarks = [endMark] := by decide
 
+/-! ### codecs -/
+
+/-- the pending bytes are an incomplete sequence: decoding nothing more yields nothing -/
+def Codec.Idle (c : Codec) (buf : Bytes) : Prop := c.decode buf [] = ([], buf)
+
+theorem Codec.idle_nil (c : Codec) : c.Idle [] := by
+  cases c <;> rfl
+
+theorem Codec.idle_utf8 {buf : Bytes} (h : step buf = none) : Codec.utf8.Idle buf := by
+  show Utf8.decode buf [] = ([], buf)
+  unfold Utf8.decode
+  rw [List.append_nil, scan_of_none h]
+
+/-- what a decoder keeps is always an incomplete sequence (nothing, for a single-byte code page) -/
+theorem Codec.idle_result (c : Codec) (buf chunk : Bytes) : c.Idle (c.decode buf chunk).2 := by
+  cases c with
+  | utf8 => exact Codec.idle_utf8 (scan_rest _)
+  | single tbl => rfl
+
+/-- **every incremental decoder modelled is chunk independent**: decoding `a` then `b` (carrying
+    the pending bytes over) = decoding `a ++ b` at once -/
+theorem Codec.decode_append (c : Codec) (buf a b : Bytes) :
+    c.decode buf (a ++ b) =
+      ((c.decode buf a).1 ++ (c.decode (c.decode buf a).2 b).1, (c.decode (c.decode buf a).2 b).2) := by
+  cases c with
+  | utf8 => exact decode_append_aux buf a b
+  | single tbl => simp [Codec.decode, List.append_assoc]
+
+/-- **single-byte code pages: every byte is exactly one character, nothing is ever pending** -/
+theorem single_bytewise (tbl : List (Option Nat)) (bs : Bytes) :
+    (Codec.single tbl).decode [] bs = (bs.map (sbChar tbl), []) ∧
+    ((Codec.single tbl).decode [] bs).1.length = bs.length := by
+  simp [Codec.decode]
+
+/-- side conditions on a single-byte table: 256 entries; entries are Unicode scalar values; the
+    ASCII half is fully defined (surrogateescape only escapes bytes ≥ 0x80) -/
+def sbWf (tbl : List (Option Nat)) : Bool :=
+  tbl.length == 256 &&
+  tbl.all (fun o => match o with
+    | some cp => decide (cp < 0xD800 ∨ (0xDFFF < cp ∧ cp < 0x110000))
+    | none => true) &&
+  (tbl.take 128).all Option.isSome
+
+/-- for a lawful table a byte decodes to the scalar value of its table entry, or — only for
+    bytes ≥ 0x80 — to its escape `0xDC00 + b`; the two cannot be confused -/
+theorem sbChar_lawful {tbl : List (Option Nat)} (h : sbWf tbl = true) {b : Nat} (hb : b < 256) :
+    (∃ cp, tbl[b]? = some (some cp) ∧ sbChar tbl b = cp ∧ (cp < 0xD800 ∨ (0xDFFF < cp ∧ cp < 0x110000))) ∨
+    (tbl[b]? = some none ∧ 0x80 ≤ b ∧ sbChar tbl b = esc b) := by
+  simp only [sbWf, Bool.and_eq_true, beq_iff_eq, List.all_eq_true] at h
+  obtain ⟨⟨hlen, hval⟩, hlow⟩ := h
+  have hlt : b < tbl.length := by omega
+  have hget : tbl[b]? = some tbl[b] := List.getElem?_eq_getElem hlt
+  cases ho : tbl[b] with
+  | some cp =>
+    left
+    have := hval _ (List.getElem_mem hlt)
+    rw [ho] at this
+    exact ⟨cp, by rw [hget, ho], by simp [sbChar, hget, ho], by simpa using this⟩
+  | none =>
+    right
+    refine ⟨by rw [hget, ho], ?_, by simp [sbChar, hget, ho]⟩
+    by_cases hb8 : b < 128
+    · exfalso
+      have hm : tbl[b] ∈ tbl.take 128 := by
+        rw [List.mem_take_iff_getElem]
+        exact ⟨b, by omega, rfl⟩
+      have := hlow _ hm
+      rw [ho] at this
+      cases this
+    · omega
+
+/-- the single-byte tables regenerated from the running interpreter are lawful -/
+theorem gen_ok3 : Gen.C03.codecs.all (fun kv => sbWf kv.2) = true := by decide +kernel
+
+/-- the reader's default encoding is the UTF-8 model -/
+theorem pin_readerEncoding : codecOf Gen.C03.readerEncoding = some .utf8 := by decide
+
+/-! ### decode + feed for a codec -/
+
+theorem readKeysC_utf8 (cfg : Cfg) (st : InSt) (chunk : Bytes) :
+    readKeysC cfg .utf8 st chunk = readKeys cfg st chunk := rfl
+
+/-- two reads delivering `a` then `b` = one read delivering `a ++ b`, for every codec -/
+theorem readKeysC_append (cfg : Cfg) (c : Codec) (st : InSt) (a b : Bytes) :
+    readKeysC cfg c st (a ++ b) = readKeysC cfg c (readKeysC cfg c st a) b := by
+  unfold readKeysC
+  rw [Codec.decode_append]
+  simp [feed_append_aux]
+
+theorem readKeysC_nil (cfg : Cfg) (c : Codec) (st : InSt) (h1 : c.Idle st.dec) (h2 : Ready st.p) :
+    readKeysC cfg c st [] = st := by
+  unfold readKeysC
+  rw [h1]
+  simp [feed_nil cfg _ h2]
+
 /-! ### `PosixStdinReader.read` -/
 
 /-- once `closed`, `read` returns "" and touches nothing -/
@@ -29,12 +124,13 @@ theorem read_idle (count : Nat) (r : Reader) (fd : Fd) (h1 : r.closed = false) (
     (h3 : fd.avail = []) (h4 : fd.eof = false) : r.read count fd = ([], r, fd) := by
   simp [Reader.read, h1, h2, h3, h4, Fd.readable]
 
-/-- data available: at most `count` bytes go through the incremental decoder -/
+/-- data available: at most `count` bytes go through the incremental decoder of the reader's
+    encoding -/
 theorem read_data (count : Nat) (hc : 1 ≤ count) (r : Reader) (fd : Fd) (h1 : r.closed = false)
     (h2 : fd.bad = false) (h3 : fd.avail ≠ []) :
     r.read count fd =
-      ((decode r.dec (fd.avail.take count)).1,
-       { dec := (decode r.dec (fd.avail.take count)).2, closed := false },
+      ((r.codec.decode r.dec (fd.avail.take count)).1,
+       { r with dec := (r.codec.decode r.dec (fd.avail.take count)).2 },
        { fd with avail := fd.avail.drop count }) := by
   have hne : (fd.avail.take count).isEmpty = false := by
     cases ha : fd.avail with
@@ -56,8 +152,9 @@ theorem read_eof (count : Nat) (r : Reader) (fd : Fd) (h1 : r.closed = false) (h
 /-- descriptor closed under the reader (`OSError` from `select` and from `os.read`): `closed` is
     set, nothing is delivered, the decoder keeps what it holds -/
 theorem read_bad (count : Nat) (r : Reader) (fd : Fd) (h1 : r.closed = false) (h2 : fd.bad = true)
-    (hd : step r.dec = none) : r.read count fd = ([], { r with closed := true }, fd) := by
-  simp [Reader.read, h1, h2, decode, scan_of_none hd]
+    (hd : r.codec.Idle r.dec) : r.read count fd = ([], { r with closed := true }, fd) := by
+  unfold Codec.Idle at hd
+  simp [Reader.read, h1, h2, hd]
 
 /-- **`closed` is set exactly on EOF or on a dead descriptor** (and stays set) -/
 theorem read_closed_iff (count : Nat) (hc : 1 ≤ count) (r : Reader) (fd : Fd) :
@@ -76,12 +173,25 @@ theorem read_closed_iff (count : Nat) (hc : 1 ≤ count) (r : Reader) (fd : Fd) 
           simp [read_idle count r fd h1' h2' h3 h4', h1', h2', h4']
       · simp [read_data count hc r fd h1' h2' h3, h1', h2', h3]
 
+/-- the reader never changes its decoder -/
+theorem read_codec (count : Nat) (r : Reader) (fd : Fd) : (r.read count fd).2.1.codec = r.codec := by
+  unfold Reader.read
+  split
+  · rfl
+  · split
+    · rfl
+    · split
+      · rfl
+      · simp only
+        split <;> rfl
+
 /-! ### `Vt100Input.read_keys` -/
 
 /-- at rest: the decoder holds an incomplete sequence, the paste buffer no end mark -/
-def InpReady (st : Inp) : Prop := step st.rd.dec = none ∧ Ready st.p
+def InpReady (st : Inp) : Prop := st.rd.codec.Idle st.rd.dec ∧ Ready st.p
 
-theorem inpReady_init : InpReady Inp.init := ⟨rfl, ready_init⟩
+theorem inpReady_new (c : Codec) : InpReady (Inp.new c) := ⟨Codec.idle_nil c, ready_init⟩
+theorem inpReady_init : InpReady Inp.init := inpReady_new _
 
 /-- a closed input: `read_keys()` returns no keys and changes nothing -/
 theorem readKeys_closed (cfg : Cfg) (count : Nat) (st : Inp) (fd : Fd) (h : st.rd.closed = true)
@@ -95,35 +205,44 @@ theorem readKeysN_closed (cfg : Cfg) (count n : Nat) (st : Inp) (fd : Fd) (h : s
   | zero => rfl
   | succ n ih => rw [Inp.readKeysN, readKeys_closed cfg count st fd h hr]; exact ih
 
-/-- `read_keys()` with data available = the model of `Props/C03`: decode at most `count` bytes, feed -/
+/-- the state of a `Vt100Input` whose reader (codec `c`, open) holds `x` -/
+def Inp.of (c : Codec) (closed : Bool) (x : InSt) : Inp := { rd := { codec := c, dec := x.dec, closed := closed }, p := x.p }
+
+/-- `read_keys()` with data available: decode at most `count` bytes with the input's codec, feed -/
 theorem readKeys_data (cfg : Cfg) (count : Nat) (hc : 1 ≤ count) (st : Inp) (fd : Fd)
     (h1 : st.rd.closed = false) (h2 : fd.bad = false) (h3 : fd.avail ≠ []) :
     st.readKeys cfg count fd =
-      ({ rd := { dec := (readKeys cfg ⟨st.rd.dec, st.p⟩ (fd.avail.take count)).dec, closed := false },
-         p := (readKeys cfg ⟨st.rd.dec, st.p⟩ (fd.avail.take count)).p },
+      (Inp.of st.rd.codec false (readKeysC cfg st.rd.codec ⟨st.rd.dec, st.p⟩ (fd.avail.take count)),
        { fd with avail := fd.avail.drop count }) := by
-  simp [Inp.readKeys, read_data count hc st.rd fd h1 h2 h3, readKeys]
+  obtain ⟨⟨c, d, cl⟩, p⟩ := st
+  simp only at h1
+  subst h1
+  simp [Inp.readKeys, read_data count hc ⟨c, d, false⟩ fd rfl h2 h3, readKeysC, Inp.of]
 
-/-- **The 1024-byte boundary is harmless.**  Whatever amount of bytes is waiting in the pipe,
-    reading it in pieces of at most `count` bytes (`n` calls of `read_keys()`, enough to drain it)
-    leaves decoder, parser and delivered key presses exactly as ONE read of everything would —
-    also when the boundary falls inside a UTF-8 sequence, an escape sequence or a paste end mark. -/
+theorem inpReady_of (cfg : Cfg) (c : Codec) (x : InSt) (chunk : Bytes) (hr : Ready x.p) :
+    InpReady (Inp.of c false (readKeysC cfg c x chunk)) :=
+  ⟨Codec.idle_result c _ _, feed_ready cfg _ _ hr⟩
+
+/-- **The 1024-byte boundary is harmless, whatever the encoding.**  Whatever amount of bytes is
+    waiting in the pipe, reading it in pieces of at most `count` bytes (`n` calls of `read_keys()`,
+    enough to drain it) leaves decoder, parser and delivered key presses exactly as ONE read of
+    everything would — also when the boundary falls inside a UTF-8 sequence, an escape sequence or
+    a paste end mark. -/
 theorem readKeysN_drain (cfg : Cfg) (count : Nat) (hc : 1 ≤ count) :
     ∀ (n : Nat) (st : Inp) (fd : Fd), InpReady st → st.rd.closed = false → fd.bad = false →
       fd.eof = false → fd.avail.length ≤ n * count →
       Inp.readKeysN cfg count n st fd =
-        ({ rd := { dec := (readKeys cfg ⟨st.rd.dec, st.p⟩ fd.avail).dec, closed := false },
-           p := (readKeys cfg ⟨st.rd.dec, st.p⟩ fd.avail).p },
+        (Inp.of st.rd.codec false (readKeysC cfg st.rd.codec ⟨st.rd.dec, st.p⟩ fd.avail),
          { fd with avail := [] }) := by
   intro n
   induction n with
   | zero =>
     intro st fd hr h1 _ _ hl
     have ha : fd.avail = [] := List.eq_nil_of_length_eq_zero (by omega)
-    have := readKeys_nil cfg ⟨st.rd.dec, st.p⟩ hr
-    obtain ⟨⟨d, c⟩, p⟩ := st
+    have := readKeysC_nil cfg st.rd.codec ⟨st.rd.dec, st.p⟩ hr.1 hr.2
+    obtain ⟨⟨c, d, cl⟩, p⟩ := st
     cases fd
-    simp_all [Inp.readKeysN]
+    simp_all [Inp.readKeysN, Inp.of]
   | succ n ih =>
     intro st fd hr h1 h2 h4 hl
     rw [Inp.readKeysN]
@@ -135,16 +254,12 @@ theorem readKeysN_drain (cfg : Cfg) (count : Nat) (hc : 1 ≤ count) :
       exact ih st fd hr h1 h2 h4 (by rw [h3]; simp)
     · rw [readKeys_data cfg count hc st fd h1 h2 h3]
       simp only
-      have hr' : InpReady ⟨⟨(readKeys cfg ⟨st.rd.dec, st.p⟩ (fd.avail.take count)).dec, false⟩,
-          (readKeys cfg ⟨st.rd.dec, st.p⟩ (fd.avail.take count)).p⟩ := by
-        have := readKeys_ready cfg ⟨st.rd.dec, st.p⟩ (fd.avail.take count) hr
-        exact this
-      rw [ih _ { fd with avail := fd.avail.drop count } hr' rfl h2 h4 (by
+      rw [ih _ { fd with avail := fd.avail.drop count } (inpReady_of cfg _ _ _ hr.2) rfl h2 h4 (by
         simp only [List.length_drop]
         rw [Nat.succ_mul] at hl
         omega)]
-      simp only
-      have happ := readKeys_append_aux cfg ⟨st.rd.dec, st.p⟩ (fd.avail.take count) (fd.avail.drop count)
+      simp only [Inp.of]
+      have happ := readKeysC_append cfg st.rd.codec ⟨st.rd.dec, st.p⟩ (fd.avail.take count) (fd.avail.drop count)
       rw [List.take_append_drop] at happ
       rw [happ]
 
@@ -155,8 +270,7 @@ theorem readKeysN_eof (cfg : Cfg) (count : Nat) (hc : 1 ≤ count) :
     ∀ (n : Nat) (st : Inp) (fd : Fd), InpReady st → st.rd.closed = false → fd.bad = false →
       fd.eof = true → fd.avail.length + count ≤ n * count →
       Inp.readKeysN cfg count n st fd =
-        ({ rd := { dec := (readKeys cfg ⟨st.rd.dec, st.p⟩ fd.avail).dec, closed := true },
-           p := (readKeys cfg ⟨st.rd.dec, st.p⟩ fd.avail).p },
+        (Inp.of st.rd.codec true (readKeysC cfg st.rd.codec ⟨st.rd.dec, st.p⟩ fd.avail),
          { fd with avail := [] }) := by
   intro n
   induction n with
@@ -165,29 +279,26 @@ theorem readKeysN_eof (cfg : Cfg) (count : Nat) (hc : 1 ≤ count) :
     intro st fd hr h1 h2 h4 hl
     rw [Inp.readKeysN]
     by_cases h3 : fd.avail = []
-    · have heof : st.readKeys cfg count fd = (⟨⟨st.rd.dec, true⟩, st.p⟩, fd) := by
+    · have heof : st.readKeys cfg count fd = (⟨{ st.rd with closed := true }, st.p⟩, fd) := by
         obtain ⟨rd, p⟩ := st
         simp [Inp.readKeys, read_eof count rd fd h1 h2 h3 h4, feed_nil cfg p hr.2]
       rw [heof]
       simp only
-      rw [readKeysN_closed cfg count n ⟨⟨st.rd.dec, true⟩, st.p⟩ fd rfl hr]
-      have := readKeys_nil cfg ⟨st.rd.dec, st.p⟩ hr
-      obtain ⟨⟨d, c⟩, p⟩ := st
+      rw [readKeysN_closed cfg count n ⟨{ st.rd with closed := true }, st.p⟩ fd rfl hr]
+      have := readKeysC_nil cfg st.rd.codec ⟨st.rd.dec, st.p⟩ hr.1 hr.2
+      obtain ⟨⟨c, d, cl⟩, p⟩ := st
       cases fd
-      simp_all
+      simp_all [Inp.of]
     · rw [readKeys_data cfg count hc st fd h1 h2 h3]
       simp only
-      have hr' : InpReady ⟨⟨(readKeys cfg ⟨st.rd.dec, st.p⟩ (fd.avail.take count)).dec, false⟩,
-          (readKeys cfg ⟨st.rd.dec, st.p⟩ (fd.avail.take count)).p⟩ :=
-        readKeys_ready cfg ⟨st.rd.dec, st.p⟩ (fd.avail.take count) hr
       have hpos : 0 < fd.avail.length := List.length_pos_iff.2 h3
-      rw [ih _ { fd with avail := fd.avail.drop count } hr' rfl h2 h4 (by
+      rw [ih _ { fd with avail := fd.avail.drop count } (inpReady_of cfg _ _ _ hr.2) rfl h2 h4 (by
         simp only [List.length_drop]
         cases n with
         | zero => simp at hl; omega
         | succ k => simp only [Nat.succ_mul] at hl ⊢; omega)]
-      simp only
-      have happ := readKeys_append_aux cfg ⟨st.rd.dec, st.p⟩ (fd.avail.take count) (fd.avail.drop count)
+      simp only [Inp.of]
+      have happ := readKeysC_append cfg st.rd.codec ⟨st.rd.dec, st.p⟩ (fd.avail.take count) (fd.avail.drop count)
       rw [List.take_append_drop] at happ
       rw [happ]
 
